@@ -97,7 +97,7 @@ let gen_seq st backend cap nops =
 
 let gen st tier =
   let thorough = tier = "thorough" in
-  let mem = List.init (if thorough then 30000 else 1500) (fun _ -> gen_seq st "mem" (rnd_pick st [ 1; 4096; 5000 ]) (4 + rnd_int st 22)) in
+  let mem = List.init (if thorough then 30000 else 1500) (fun _ -> gen_seq st "mem" (rnd_pick st [ 1; 4096; 5000; 9000; 12288; 20000 ]) (4 + rnd_int st 22)) in
   let file = List.init (if thorough then 60 else 5) (fun _ -> gen_seq st "file" 1 (5 + rnd_int st 6)) in
   mem @ file
 
